@@ -200,8 +200,11 @@ def exec_case(case, real=False):
                 if exp.dtype.kind == "f":
                     if got.dtype.kind != "f" or got.dtype.itemsize != exp.dtype.itemsize:
                         raise Violation("pixels", f"{what}: tile {p} stored as {got.dtype}")
+                    # the sampler is evaluated at coordinates that may differ in the last bit: 1e-9 (F64) / a
+                    # couple of float32 ulps (F32), scaled by the largest gain of any sampler used so far
                     atol = 1e-9 if mode == "F64" else 1e-6
-                    bad = ~np.isclose(got.astype(np.float64), exp.astype(np.float64), rtol=0, atol=atol * call["sampler"].get("gain", 1.0), equal_nan=True)
+                    gmax = max(c_["sampler"].get("gain", 1.0) for c_ in case["calls"][: ci + 1])
+                    bad = ~np.isclose(got.astype(np.float64), exp.astype(np.float64), rtol=0 if mode == "F64" else 2.4e-7, atol=atol * gmax, equal_nan=True)
                 else:
                     t = 8 if fmt == "jpg" else 1
                     bad = (np.abs(got.astype(int) - exp.astype(int)) > t)
